@@ -337,3 +337,11 @@ func guardedByCall(in ssa.Instruction, want bool, pred func(*ssa.Call) bool) boo
 	}
 	return false
 }
+
+// calleeName: the static callee's (or invoked method's) bare name, "" when dynamic.
+func calleeName(ci ssa.CallInstruction) string {
+	if f := ci.Common().StaticCallee(); f != nil {
+		return f.Name()
+	}
+	return invokeName(ci)
+}
